@@ -439,6 +439,17 @@ def copy_headers(S: Any) -> None:
     S.loop_ghost[key] = ["sent"]
     me = SObj(mw._CapabilitiesMiddleware, _headers=H, _cache_max_age_seconds=max_age)
     req = SObj(None, kind="Request", method=method)
+    # any request header may be present with any value, or absent (one draw per header name and path)
+    hdrs = {}
+
+    def get_header(S, r, name, default=None, **kw):
+        key = str(name).lower()
+        if key not in hdrs:
+            hdrs[key] = S.str("header_" + key.replace("-", "_")) if S.choose(2) == 1 else None
+            S.inputs["request_header:" + key] = hdrs[key] is not None
+        return hdrs[key] if hdrs[key] is not None else default
+
+    S.handlers["Request.get_header"] = get_header
     out = S.outcome(mw._CapabilitiesMiddleware.process_response, me, req, SObj(None, kind="Response"), None if resource_none else SObj(None, kind="Resource"), succeeded)
     S.oblige("O2.never_raises", out.returned, kind="raises")
     if not out.returned:
